@@ -444,18 +444,20 @@ class Runner:
                "brk": self.brk[0], "ulen": 32, "mal": mal, "rc": rc, "chg": chg}
         # ---- rounds of deliveries (one per damage variant)
         rounds = [(0, "", None)]
-        if job.damage in ("all", "all-catchall"):
+        only = getattr(job, "only", None)           # --replay: just this variant
+        if job.damage in ("all", "all-catchall") and os.path.isfile(cdbp):
             data = open(cdbp, "rb").read()
-            rounds = damage_variants(data, job.damage, self.thorough, None)
-            if job.damage == "all-catchall" and not self.thorough:
-                rounds = rounds[::3]
-            if not self.ns:
-                rounds = rounds[::4]        # serial fall-back: keep the run within its time budget
-            if job.part:
-                rounds = rounds[job.part[0]::job.part[1]]
-            if getattr(job, "only", None) is not None:
-                rounds = [v for v in rounds if v[1] == job.only]
-        elif job.damage in ("dir", "loop"):
+            rounds = damage_variants(data, job.damage, self.thorough or only is not None, None)
+            if only is not None:
+                rounds = [v for v in rounds if v[1] == only]
+            else:
+                if job.damage == "all-catchall" and not self.thorough:
+                    rounds = rounds[::3]
+                if not self.ns:
+                    rounds = rounds[::4]        # serial fall-back: keep the run within its time budget
+                if job.part:
+                    rounds = rounds[job.part[0]::job.part[1]]
+        elif job.damage in ("dir", "loop") and os.path.isfile(cdbp):
             rounds = [(1, job.damage, None)]
         recs = []
         stop = False
@@ -483,7 +485,13 @@ class Runner:
             for k in range(0, len(job.locals), 100):
                 batch = job.locals[k:k + 100]
                 dels = [(b"t%d@s.test" % (k + i), l + b"@" + DOM) for i, l in enumerate(batch)]
-                reps, hung = run_lspawn_cmd(self.cmd(priv, [tree.bin("qmail-lspawn"), DFLT]), tree.root, env, dels)
+                reps, hung = U.run_lspawn(self.cmd(priv, [tree.bin("qmail-lspawn"), DFLT]), tree.root, env, dels)
+                if hung:
+                    # a busy machine must not look like a hang: confirm with a much longer limit
+                    U.collect_standin(rec)
+                    if trace:
+                        open(trace, "w").close()
+                    reps, hung = U.run_lspawn(self.cmd(priv, [tree.bin("qmail-lspawn"), DFLT]), tree.root, env, dels, timeout=150)
                 if hung:
                     # a delivery that is never reported is neither the answer nor a deferral: its record (no report, no
                     # start) goes to the monitor like any other; the rest of this job is skipped to bound the run time
@@ -521,39 +529,6 @@ class Runner:
                     recs.append(r)
         shutil.rmtree(w, ignore_errors=True)
         return cfg, recs
-
-
-def run_lspawn_cmd(argv, cwd, env, deliveries, timeout=40):
-    """One qmail-lspawn process (the binary may be wrapped): all commands are written at once, then descriptor 0 is
-    closed; qmail-lspawn exits when every delivery has been reported.  Returns (reports, hung): report texts (first
-    byte = class) or None where no report came; hung = the process had to be killed."""
-    inp = b"".join(bytes([k + 1]) + b"0/1234\0" + s + b"\0" + r + b"\0" for k, (s, r) in enumerate(deliveries))
-    p = subprocess.Popen(argv, stdin=subprocess.PIPE, stdout=subprocess.PIPE, stderr=subprocess.PIPE, env=env, cwd=cwd, start_new_session=True)
-    hung = False
-    try:
-        out, err = p.communicate(inp, timeout=timeout)
-    except subprocess.TimeoutExpired:
-        hung = True
-        try:
-            os.killpg(p.pid, 9)
-        except OSError:
-            p.kill()
-        out, err = p.communicate()
-    if hung:
-        # cut an unfinished report off
-        out = out[:out.rfind(b"\0") + 1] if len(out) > 1 else out[:1]
-    conc, reps = U.parse_reports(out)
-    if conc is None and not hung:
-        raise Infra("qmail-lspawn wrote nothing (exit %s): %r" % (p.returncode, err[:300]))
-    res = []
-    for k in range(len(deliveries)):
-        r = reps.get(k + 1, [])
-        if len(r) > 1:
-            raise Infra("two reports for one delivery number: %r" % r)
-        if r and U.MARK_FAIL in r[0]:
-            raise Infra("the stand-in qmail-local failed: %r" % r[0])
-        res.append(r[0] if r else None)
-    return res, hung
 
 
 def esc(b, cap=40):
@@ -597,6 +572,8 @@ def main():
         txt = f.read().replace("WcAsWritten = FALSE", "WcAsWritten = TRUE")
     with open(asfound, "w") as f:
         f.write(txt)
+    if thorough:
+        models.append(("UsersLspawn(tables,MaxLines=4,MaxLocal=2)", model_cfg(ck.scratch.path("m4.cfg"), "tables", 4, 2, 4)))
     mres = {}
 
     def run_model(m):
